@@ -117,3 +117,95 @@ def rf29(run):
         fields = {x['n'] for x in pm.walk() if x['k'] == 'MemberExpr' and x.get('rec') in ('MIR_mem_t', 'MIR_mem')}
         run.ob(rule, ('interp-reliance',), True, {'fields of the memory operand the interpreter encodes': sorted(fields)})
     return n
+
+
+# ---------------------------------------------------------------------------------------------
+# RF45: results of several ret insns are merged through fresh registers; RF46: the top alloca precedes every call
+# ---------------------------------------------------------------------------------------------
+
+def rf45(run):
+    import rf_flow
+    rule = 'RF45'
+    run.rule(rule, 'make_one_ret: when a function has more than one ret, the registers that receive the results of the early rets '
+                   '(sequential moves followed by a jump to the common ret) are temporaries created in make_one_ret, not the operand '
+                   'registers of the last ret: moving straight into those can overwrite a register that a later move still reads '
+                   '(ret y, x merged into ret x, y)')
+    tu = run.tu('mir')
+    f = tu.func('make_one_ret')
+    run.functions_analysed.add(('mir', f.name))
+    cfg = f.cfg
+    pushes = [x for x in f.walk() if x['k'] == 'CallExpr' and (x.get('callee') or '') == 'VARR_MIR_op_tpush']
+    if len(pushes) != 1:
+        raise F.AnalysisBroken('make_one_ret: the push of the merge operands (ret_ops) was found %d times' % len(pushes))
+    pb = cfg.block_of(pushes[0])
+    # stores last_ret_insn->ops[i] = <op of a new temporary>
+    fresh_vars = set()
+    for x in f.walk():
+        if x['k'] == 'BinaryOperator' and x['op'] == '=':
+            r = F.strip(x['c'][1])
+            if r['k'] == 'CallExpr' and r.get('callee') == 'MIR_new_reg_op':
+                a = F.strip(F.call_args(r)[1])
+                ok_src = a['k'] == 'CallExpr' and a.get('callee') == '_MIR_new_temp_reg'
+                if a['k'] == 'DeclRefExpr':
+                    ok_src = any(y['k'] == 'BinaryOperator' and y['op'] == '=' and F.src(F.strip(y['c'][0])) == a['n']
+                                 and F.strip(y['c'][1])['k'] == 'CallExpr' and F.strip(y['c'][1]).get('callee') == '_MIR_new_temp_reg' for y in f.walk())
+                if ok_src:
+                    fresh_vars.add(F.src(F.strip(x['c'][0])))
+    stores = rf_flow.blocks_with(cfg, lambda z: z['k'] == 'BinaryOperator' and z['op'] == '=' and F.src(F.strip(z['c'][0])) == 'last_ret_insn->ops[i]'
+                                 and F.src(F.strip(z['c'][1])) in fresh_vars)
+    hdr = [B for B in cfg.blocks.values() if B.cond is not None and len(B.succs) == 2 and 'length(' in F.src(B.cond) and '> 1' in F.src(B.cond)]
+    ok = False
+    if hdr and stores and pb is not None:
+        H = hdr[0]
+        t = H.succs[0]
+        # from the "several rets" edge, the push is reached only through a block that installs a fresh register
+        from rf_proto import _loop_headers_of, _loop_signature
+        # the store sits in a loop over all results (same bound as the loop that records the merge operands) and that loop lies
+        # on every path from the "several rets" edge to the recording
+        sh = set()
+        for s_ in stores:
+            if s_ == t or cfg.dominates(t, s_):   # only the stores on the "several rets" side
+                sh |= set(_loop_headers_of(cfg, s_))
+        same_bound = bool(sh) and set(_loop_signature(cfg, list(sh))) == set(_loop_signature(cfg, _loop_headers_of(cfg, pb)))
+        ok = same_bound and pb not in cfg.reachable_from(t, avoid=lambda q: q in sh) and any(cfg.dominates(H.id, s_) for s_ in stores)
+        # and that store precedes the push also textually inside a loop over all results
+    run.ob(rule, ('fresh-merge-registers',), ok, {'registers installed before the merge operands are recorded': sorted(fresh_vars),
+                                                 'on every path with several rets': ok})
+    if not ok:
+        run.violation(rule, f, 'merge registers of several rets',
+                      'make_one_ret moves the operands of an early ret one after another into the operand registers of the last ret: with '
+                      '`ret y, x` before `ret x, y` the second move reads a register the first one has overwritten', line=pushes[0]['l'])
+    run.min_instances(rule, 1)
+
+
+def rf46(run):
+    from lib import enumflow as EF
+    rule = 'RF46'
+    run.rule(rule, 'func_alloca_features: the constant alloca that process_inlines uses as the base of inlined callees\' frames (the '
+                   '"top alloca") is accepted only while neither a label nor a call has been seen: the statement that ends the search '
+                   'fires for MIR_LABEL and for every call-family opcode (a call in front of the alloca would be inlined with the alloca '
+                   'register still unset)')
+    tu = run.tu('mir')
+    f = tu.func('func_alloca_features')
+    run.functions_analysed.add(('mir', f.name))
+    preds = EF.Predicates(tu)
+    site = None
+    for x in f.walk():
+        if x['k'] == 'IfStmt' and any(y['k'] == 'BinaryOperator' and y['op'] == '=' and F.src(F.strip(y['c'][0])) == 'set_top_alloca_p'
+                                      and F.const_value(y['c'][1]) == 0 for y in F.walk(x['c'][1])) and 'insn->code' in F.src(x['c'][0]):
+            if site is None or x['l'] < site['l']:
+                site = x
+    if site is None:
+        raise F.AnalysisBroken('func_alloca_features: the statement clearing set_top_alloca_p on an opcode was not found')
+    codes = dict(tu.enum('MIR_insn_code_t'))
+    for c in ('MIR_LABEL', 'MIR_CALL', 'MIR_INLINE', 'MIR_JCALL'):
+        v = preds.eval(site['c'][0], {'insn->code': codes[c], 'set_top_alloca_p': 1}, frozenset())
+        ok = v is not None and bool(v)
+        run.ob(rule, (c,), ok, {'opcode': c, 'ends the search for the top alloca': v})
+        if not ok:
+            if v is None:
+                raise F.AnalysisBroken('func_alloca_features: test not evaluable for %s' % c)
+            run.violation(rule, f, 'top alloca after %s' % c, 'a constant alloca that follows a %s is still taken for the function\'s top '
+                          'alloca: %s' % (c, 'it is executed more than once' if c == 'MIR_LABEL' else 'a call in front of it is inlined with '
+                                          'a frame address computed from the alloca register before the alloca has executed'), line=site['l'])
+    run.min_instances(rule, 4)
